@@ -5,7 +5,8 @@
 // the bound is compared step by step with a reference registry that restates the property; (b) two-thread scenarios run under
 // the controlled scheduler (every schedule) and must be linearizable with respect to that reference.  (c) [property C08, run as
 // group relay_disconnect_bx] a disconnect request for a connection that has been admitted, in every interleaving with the
-// connection's registration.
+// connection's registration.  (d) [property C05, run as group relay_forward_bx] send-heavy histories: a frame that cannot be forwarded
+// never costs the RECEIVER its connection.
 #![allow(dead_code, unused_imports, unused_variables, unused_macros, unused_mut)]
 macro_rules! trace { ($($t:tt)*) => { () }; }
 macro_rules! debug { ($($t:tt)*) => { () }; }
@@ -258,8 +259,9 @@ fn main() {
     // (two successive connections) against a registered peer — packets, closes, reconnects, draining the peer's queue
     let focused: Vec<Op> = vec![Op::Connect(1, 1), Op::Connect(1, 2), Op::Connect(1, 3), Op::Connect(1, 4), Op::Close(1), Op::Close(2), Op::Close(3), Op::Close(4)];
     let sender: Vec<Op> = vec![Op::Connect(1, 1), Op::Connect(1, 2), Op::Close(1), Op::Close(2), Op::Send(1, 8), Op::Drain(80)];
-    let deeper = if max_len == 0 { 0 } else { max_len + 2 };
-    for (setup, alphabet, depth) in [(vec![], alphabet, max_len), (vec![], focused, deeper), (vec![Op::Connect(8, 80)], sender, deeper)] {
+    let seq_len = if conc >= 2 { 0 } else { max_len };   // phases (c) and (d) are run on their own
+    let deeper = if seq_len == 0 { 0 } else { seq_len + 2 };
+    for (setup, alphabet, depth) in [(vec![], alphabet, seq_len), (vec![], focused, deeper), (vec![Op::Connect(8, 80)], sender, deeper)] {
     let max_len = depth;
     let n = alphabet.len();
     let mut idx: Vec<usize> = vec![0];
@@ -423,6 +425,50 @@ fn main() {
                 match sched::next_prefix(out.trace) { Some(p) => prefix = p, None => break }
             }
         } }
+    }
+    // ---- (d) C05: whatever a client sends (to a full queue, to a connection whose actor has ended, to nobody), the relay never asks a
+    //      DIFFERENT client's live connection to shut down and never drops it from the registry; what was queued for it stays queued
+    if conc == 3 {
+        let alphabet: Vec<Op> = vec![Op::Connect(1, 1), Op::Connect(8, 80), Op::Connect(9, 90), Op::Send(1, 8), Op::Send(9, 8), Op::Send(8, 1), Op::Send(1, 7), Op::Drain(80), Op::EndActor(80), Op::Unregister(80)];
+        let n = alphabet.len();
+        let depth = max_len.max(1) + 2;
+        let mut idx: Vec<usize> = vec![0];
+        loop {
+            let seq: Vec<Op> = idx.iter().map(|i| alphabet[*i]).collect();
+            let mut seen = HashSet::new();
+            let valid = seq.iter().all(|o| match o { Op::Connect(_, c) => seen.insert(*c), _ => true });
+            let input = format!("history={:?}", seq);
+            if valid && !rep.skip(&input) {
+                rep.evaluations += 1; if seq.iter().filter(|o| matches!(o, Op::Send(..))).count() >= 3 { rep.nontrivial += 1; }
+                if seq.len() == 5 && rep.evaluations % 5003 == 1 { rep.sample(&input); }
+                let seq2 = seq.clone();
+                let out = std::panic::catch_unwind(move || {
+                    let (sys, mut model) = (Sys::new(), Model::default());
+                    for (k, op) in seq2.iter().enumerate() {
+                        let before = sys.observe();
+                        let (r, w) = (sys.apply(*op), model.apply(*op));
+                        let after = sys.observe();
+                        if let Op::Send(src, dst) = op {
+                            // connections of endpoints other than the sender that were alive (actor running) before the send
+                            for (e, conns) in before.open.iter() { if e == src { continue; } for c in conns {
+                                let alive = !model.ended.contains(c);
+                                if alive && after.shutdown_requested.contains(c) && !before.shutdown_requested.contains(c) { return Some(("a-failed-forward-never-ends-the-receivers-connection", format!("step {} {:?} (returned {:?}): connection {c} of endpoint {e}, whose actor is running, was asked to shut down", k + 1, op, r))); }
+                                if alive && !after.open.get(e).is_some_and(|l| l.contains(c)) { return Some(("a-failed-forward-never-ends-the-receivers-connection", format!("step {} {:?}: connection {c} of endpoint {e} left the registry", k + 1, op))); }
+                                let (qb, qa) = (before.packets.get(c).cloned().unwrap_or_default(), after.packets.get(c).cloned().unwrap_or_default());
+                                if alive && !qa.starts_with(&qb) { return Some(("queued-packets-stay-queued", format!("step {} {:?}: the queue of connection {c} went from {:?} to {:?}", k + 1, op, qb, qa))); }
+                            } }
+                            // the outcome is one of: forwarded, dropped because nobody is there, refused because the queue is full / closed
+                            if r != w { return Some(("frames-that-cannot-be-forwarded-are-dropped", format!("step {} {:?} returned {:?}, expected {:?}", k + 1, op, r, w))); }
+                        }
+                    }
+                    None
+                });
+                match out { Err(_) => rep.fail("never-panics", "sequential", &input, "forwarding panicked".into()), Ok(Some((ob, d))) => rep.fail(ob, "sequential", &input, d), Ok(None) => {} }
+            }
+            let mut k = idx.len();
+            loop { if k == 0 { idx = vec![0; idx.len() + 1]; break; } k -= 1; if idx[k] + 1 < n { idx[k] += 1; for j in k + 1..idx.len() { idx[j] = 0; } break; } }
+            if idx.len() > depth { break; }
+        }
     }
     rep.finish();
 }
